@@ -72,6 +72,14 @@ class UndecidableBranch(Exception):
         super().__init__(f"branch on symbolic value {cond} at {file}:{getattr(node, 'lineno', '?')} in {fn}")
 
 
+class RegionDependent(Exception):
+    """a constructor builds structurally different objects depending on the value range of a float parameter"""
+
+    def __init__(self, cls, cond, node, file, fn, diff):
+        self.cls, self.cond, self.node, self.file, self.fn, self.diff = cls, cond, node, file, fn, diff
+        super().__init__(f"{cls.name}: the branch on {cond} at {file}:{getattr(node, 'lineno', '?')} changes {', '.join(diff)}")
+
+
 class _Return(Exception):
     def __init__(self, v):
         self.v = v
